@@ -98,6 +98,22 @@ class Leaf(Mid):          # undecorated, hand-written __init__
         self.init_ran = True
 
 
+@symbol
+class Own:                # hand-written __new__ (and __init__): constructed through its own allocator
+    def __new__(cls, n=0, m=0):
+        inst = object.__new__(cls)
+        inst.made_by_own_new = True
+        return inst
+
+    def __init__(self, n=0, m=0):
+        self.n = n
+        self.m = m
+
+
+class OwnSub(Own):        # undecorated subclass of it
+    pass
+
+
 @dataclass(eq=False)
 class Other:              # not a symbol at all
     n: Any = 0
@@ -146,7 +162,7 @@ class R:                  # second inferable class
     b: Any = None
 
 
-CLASSES = {c.__name__: c for c in (A, B, Base, Mid, Leaf, Other, P, PF, PD, R, K)}
+CLASSES = {c.__name__: c for c in (A, B, Base, Mid, Leaf, Other, P, PF, PD, R, K, Own, OwnSub)}
 
 
 class Boom(Exception):
